@@ -454,6 +454,8 @@ def completion_blocks(idx, f: FunctionInfo):
     """The 'everything below / above the scanned window' blocks added next to the in-range groups:
     `W[(LO, HI)] = value` stores whose LO or HI comes from get_bands_below_range / get_bands_above_range.
     → [(kind 'sea' | 'anti', store stmt, Sem, groups name, [alternatives of the clamped bound], guard ok)]"""
+    from ..sem import inline_private_helpers, loopify_comprehensions
+    f = inline_private_helpers(idx, loopify_comprehensions(idx, f))
     S = Sem(idx, f)
     S.inline_helpers = False
     gdefs = [s for s in ast.walk(f.node) if isinstance(s, ast.Assign) and len(s.targets) == 1 and isinstance(s.targets[0], ast.Name)
